@@ -24,7 +24,7 @@ def exOrdInp : Run.RunInput :=
     sel := [1, 0, 3] }
 
 theorem exOrd_represents : Represents exOrdTasks [exNm 1, exNm 0, exNm 3] exNm exOrdInp := by
-  refine ⟨rfl, exNm_inj, rfl, ?_, ?_, ?_, ?_⟩
+  refine ⟨rfl, exNm_inj, rfl, ?_, ?_, ?_, ?_, ?_⟩
   · intro n d hd
     simp only [exOrdInp] at hd
     split at hd
@@ -39,6 +39,7 @@ theorem exOrd_represents : Represents exOrdTasks [exNm 1, exNm 0, exNm 3] exNm e
     · rename_i hn
       simp only [List.mem_singleton] at hd; subst hd; subst hn; decide
     · cases hd
+  · intro c d hd; simp [exOrdInp] at hd
   · intro c d hd; simp [exOrdInp] at hd
 
 /-- `x` (task_dep `xx`, setup-task `xxx`), `xx` (its action fails), `xxx`, `xxxx` (task_dep `xxxxx`, `xxx`), `xxxxx` -/
@@ -58,7 +59,7 @@ def exChunkInp : Run.RunInput :=
     outcome := fun n => if n = 1 then .failed else .ok }
 
 theorem exChunk_represents : Represents exChunkTasks [exNm 0, exNm 3] exNm exChunkInp := by
-  refine ⟨rfl, exNm_inj, rfl, ?_, ?_, ?_, ?_⟩
+  refine ⟨rfl, exNm_inj, rfl, ?_, ?_, ?_, ?_, ?_⟩
   · intro n d hd
     simp only [exChunkInp] at hd
     split at hd
@@ -77,6 +78,7 @@ theorem exChunk_represents : Represents exChunkTasks [exNm 0, exNm 3] exNm exChu
     · rename_i hn
       simp only [List.mem_singleton] at hd; subst hd; subst hn; decide
     · cases hd
+  · intro c d hd; simp [exChunkInp] at hd
   · intro c d hd; simp [exChunkInp] at hd
 
 end DoitModel.Sel
